@@ -60,7 +60,7 @@ type c37Chain struct {
 
 func TestC37(t *testing.T) {
 	r := mc.NewRun(t, "C37", mc.Exploration)
-	r.Rule = "part 1: product of signer-info variants (9) x certificate-set variants (6) x client chains (8) x TRC timelines (8) x " +
+	r.Rule = "part 1: product of signer-info variants (9) x certificate-set variants (6) x client chains (10, incl. chains whose CA certificate carries the AS's own ISD-AS) x TRC timelines (8) x " +
 		"signed-payload variants (3) x CSR variants (8); quick = all points with <= 3 deviating dimensions, thorough = the full " +
 		"product; one case = one VerifyCMSSignedRenewalRequest call; part 2: CreateChain for every CA window x validity x signing " +
 		"time x curve x subject x ForceECDSAWithSHA512; non-trivial = every case (all inputs pairwise different)"
@@ -191,6 +191,14 @@ func c37Run(r *mc.Run, budget *atomic.Bool) {
 		{name: "leaf-with-cert-sign-usage", root: "keep", validAt: true, wellFormed: false,
 			as: mkAS("as-certsign", "keep", victim, "as", okVal, func(c *x509.Certificate) { c.KeyUsage |= x509.KeyUsageCertSign }), ca: cas["keep"]},
 	}
+	// the victim as a core AS that runs its own CA: CA certificate and AS certificate carry the SAME ISD-AS (also the
+	// same organisation's second CA under the kept root). Identity of certificates, not of ISD-AS, decides who signed.
+	cas["own"] = pkigen.CA(roots["keep"], victim, "c37-ca-own", caVal)
+	cas["own-old"] = pkigen.CA(roots["old"], victim, "c37-ca-own-old", caVal)
+	chains = append(chains,
+		&c37Chain{name: "own-ca-same-isd-as", root: "keep", validAt: true, wellFormed: true, as: mkAS("as-own", "own", victim, "as", okVal, nil), ca: cas["own"]},
+		&c37Chain{name: "own-ca-same-isd-as-old-root", root: "old", validAt: true, wellFormed: true, as: mkAS("as-own-old", "own-old", victim, "as", okVal, nil), ca: cas["own-old"]},
+	)
 	asKey := pkigen.Key("c37-as")
 	strangerKey := pkigen.Key("c37-stranger")
 	extraCert := mkAS("extra", "keep", otherIA, "extra", okVal, nil)
